@@ -32,7 +32,7 @@ type Scenario struct {
 	ES    string    `json:"es"`
 }
 
-var kinds = []string{"eqInt", "eqString", "ordInt", "ordString", "contraEq", "contraOrd", "contraEqStr", "contraOrdStr", "fromEq", "fromOrd", "monoidOp", "monoidSg", "monoidStr", "semigroup"}
+var kinds = []string{"eqInt", "eqString", "ordInt", "ordString", "contraEq", "contraOrd", "contraEqStr", "contraOrdStr", "fromEq", "fromOrd", "monoidOp", "monoidSg", "monoidStr", "monoidNested", "semigroup"}
 
 var boundary = []int{math.MinInt, math.MinInt + 1, -1, 0, 1, math.MaxInt - 1, math.MaxInt, math.MaxInt32, math.MinInt32, 1 << 32}
 var pieces = []string{"a", "b", "ab", "A", "z", "é", "日", "\xff", "\x00", "\xc3", " ", "aa"}
@@ -236,6 +236,19 @@ func Run(sc Scenario) string {
 		}
 		if m.Empty() != sc.E {
 			return fmt.Sprintf("%s: Empty() changed after Combine: %d, want %d", sc.Kind, m.Empty(), sc.E)
+		}
+	case "monoidNested":
+		// a monoid is a semigroup: lifting an already lifted monoid again must take the NEW empty element
+		p := sc.P
+		op := func(u, v int) int { return u*p - v }
+		inner := monoid.FromOp(sc.E, op)
+		mid := monoid.From[int](sc.I[2], inner)
+		outer := monoid.From[int](sc.I[0], mid)
+		if inner.Empty() != sc.E || mid.Empty() != sc.I[2] || outer.Empty() != sc.I[0] {
+			return fmt.Sprintf("monoid.From over an already lifted monoid: Empty() = inner %d / middle %d / outer %d, the given elements were %d / %d / %d", inner.Empty(), mid.Empty(), outer.Empty(), sc.E, sc.I[2], sc.I[0])
+		}
+		if got := outer.Combine(a, b); got != a*p-b {
+			return fmt.Sprintf("monoid.From over an already lifted monoid: Combine(%d,%d)=%d, want %d", a, b, got, a*p-b)
 		}
 	case "monoidStr":
 		m := monoid.FromOp(sc.ES, func(u, v string) string { return u + "|" + v })
